@@ -169,21 +169,65 @@ func (c *compiler) evalAssignExpression(node *ast.AssignExpression) (interface{}
 }
 
 func (c *compiler) evalUserFunction(node *userFunction, args []ast.Expression) (interface{}, error) {
+	if len(args) < len(node.Parameters) {
+		return nil, fmt.Errorf("too few arguments (%d for %d)", len(args), len(node.Parameters))
+	}
+
+	// arguments are evaluated in the caller's scope, before any parameter is bound
+	vals := make([]interface{}, len(node.Parameters))
+	for i := range node.Parameters {
+		v, err := c.evalExpression(args[i])
+		if err != nil {
+			return nil, err
+		}
+
+		vals[i] = v
+	}
+
 	octx := c.ctx
 	defer func() { c.ctx = octx }()
 
 	c.ctx = c.ctx.New()
 	for i, p := range node.Parameters {
-		a := args[i]
-		v, err := c.evalExpression(a)
-		if err != nil {
-			return nil, err
-		}
-
-		c.ctx.Set(p.Value, v)
+		c.ctx.Set(p.Value, vals[i])
 	}
 
-	return c.evalBlockStatement(node.Block)
+	res, err := c.evalBlockStatement(node.Block)
+	if err != nil {
+		return nil, err
+	}
+
+	return unwrapReturn(res), nil
+}
+
+// unwrapReturn turns what a function body evaluated to into the call's value:
+// the value of the return that was reached, or, when the body also produced
+// output before returning, that output followed by the value.
+func unwrapReturn(res interface{}) interface{} {
+	ro, ok := res.(returnObject)
+	if !ok {
+		return res
+	}
+
+	flat := flattenReturn(ro, nil)
+	if len(flat) == 1 {
+		return flat[0]
+	}
+
+	return flat
+}
+
+func flattenReturn(ro returnObject, acc []interface{}) []interface{} {
+	for _, v := range ro.Value {
+		if inner, ok := v.(returnObject); ok {
+			acc = flattenReturn(inner, acc)
+			continue
+		}
+
+		acc = append(acc, v)
+	}
+
+	return acc
 }
 
 func (c *compiler) evalFunctionLiteral(node *ast.FunctionLiteral) (interface{}, error) {
